@@ -27,6 +27,7 @@ type Ctx struct {
 	bkCache      map[string]*bkRun
 	unclassified map[string]bool
 	ctorOnly     func(fn *types.Func) bool
+	cbReach      map[*types.Func]string
 }
 
 // Property is a registered check.
@@ -183,6 +184,16 @@ func (h Held) clone() Held {
 		}
 	}
 	return n
+}
+
+// any reports whether some lock is held.
+func (h Held) any() bool {
+	for _, v := range h {
+		if v > 0 {
+			return true
+		}
+	}
+	return false
 }
 
 // Has reports whether path is held exclusively (or at least shared when shared is true).
